@@ -168,13 +168,18 @@ func loadKnown() []knownFinding {
 func (r *Report) Finish() int {
 	r.mu.Lock()
 	defer r.mu.Unlock()
+	// a run against a mutated tree (VERIF_EXTRA_OVERLAY) must not overwrite the evidence of the real tree
+	evidenceDir := filepath.Join(VerifDir, "evidence")
+	if os.Getenv("VERIF_EXTRA_OVERLAY") != "" {
+		evidenceDir = filepath.Join(BuildDir, "evidence-extra-overlay")
+	}
 	known := map[string]knownFinding{}
 	for _, k := range loadKnown() {
 		if k.Property == r.Property && k.Status != "fixed" {
 			known[k.Signature] = k
 		}
 	}
-	if old, _ := filepath.Glob(filepath.Join(VerifDir, "evidence", "replays", r.Property+"-*.json")); len(old) > 0 && os.Getenv("VERIF_REPLAY") == "" {
+	if old, _ := filepath.Glob(filepath.Join(evidenceDir, "replays", r.Property+"-*.json")); len(old) > 0 && os.Getenv("VERIF_REPLAY") == "" {
 		for _, f := range old {
 			os.Remove(f)
 		}
@@ -195,7 +200,7 @@ func (r *Report) Finish() int {
 			continue
 		}
 		unlisted++
-		replayPath := filepath.Join(VerifDir, "evidence", "replays", fmt.Sprintf("%s-%d.json", r.Property, unlisted))
+		replayPath := filepath.Join(evidenceDir, "replays", fmt.Sprintf("%s-%d.json", r.Property, unlisted))
 		os.MkdirAll(filepath.Dir(replayPath), 0o755)
 		b, _ := json.MarshalIndent(map[string]any{
 			"property": r.Property, "signature": v.Sig, "detail": v.Detail, "occurrences": r.vioCount[s], "replay": v.Replay,
@@ -249,7 +254,7 @@ func (r *Report) Finish() int {
 		ev["assumptions"] = []string{}
 	}
 	b, _ := json.MarshalIndent(ev, "", " ")
-	evPath := filepath.Join(VerifDir, "evidence", r.Property+".json")
+	evPath := filepath.Join(evidenceDir, r.Property+".json")
 	os.MkdirAll(filepath.Dir(evPath), 0o755)
 	if err := os.WriteFile(evPath, b, 0o644); err != nil {
 		Logf("cannot write evidence: %v", err)
@@ -340,4 +345,20 @@ func (r *Report) Merge(sub *Report, keep func(sig string) bool) {
 		old, _ := r.Extra["violations_of_other_properties_seen"].(int64)
 		r.Extra["violations_of_other_properties_seen"] = old + int64(other)
 	}
+}
+
+// Relabel rewrites the signatures of the recorded violations.
+func (r *Report) Relabel(f func(string) string) {
+	r.mu.Lock()
+	defer r.mu.Unlock()
+	nv := map[string]*Violation{}
+	nc := map[string]int{}
+	for sig, v := range r.violations {
+		ns := f(sig)
+		vv := *v
+		vv.Sig = ns
+		nv[ns] = &vv
+		nc[ns] += r.vioCount[sig]
+	}
+	r.violations, r.vioCount = nv, nc
 }
